@@ -260,7 +260,19 @@ func runBuilder(t *toks) (res string) {
 	if err != nil {
 		return "ERR " + errClass(err)
 	}
-	return instrTokens(insts)
+	first := instrTokens(insts)
+	// the builder value is the caller's: assembling it again gives the same list (and leaves the first one alone)
+	again, err2 := p.Assemble()
+	if err2 != nil {
+		return "SECOND_ASSEMBLE_FAILS " + errClass(err2)
+	}
+	if second := instrTokens(again); second != first {
+		return "SECOND_ASSEMBLE_DIFFERS " + second
+	}
+	if instrTokens(insts) != first {
+		return "CLOBBERED the list returned by the first Assemble changed during the second"
+	}
+	return first
 }
 
 // cmdCompile annotates every B and P case line with the result of the real code; other lines pass through.
